@@ -37,11 +37,11 @@ def covs():
             np.array([[4.0, 1.0, 1.0], [1.0, 3.0, 0.5], [1.0, 0.5, 2.0]])]
 
 
-def make_model(labels, thetas, Ss, K):
+def make_model(labels, thetas, Ss, K, eps=0):
     from fast_ticc.containers import arguments, model_state
     n = thetas[0].shape[0]
     a = arguments.UserArguments(sparsity_weight=0.1, iteration_limit=1, label_switching_cost=1.0,
-                                min_cluster_size=1, min_meaningful_covariance=0, num_clusters=K,
+                                min_cluster_size=1, min_meaningful_covariance=eps, num_clusters=K,
                                 num_processors=1, window_size=1, biased_covariance=False)
     m = model_state.ModelState.empty_model(a, np.zeros((len(labels), n)))
     m.point_labels = list(labels)
@@ -52,9 +52,9 @@ def make_model(labels, thetas, Ss, K):
     return m
 
 
-def judge(labels, thetas, Ss, K):
+def judge(labels, thetas, Ss, K, eps=0):
     from fast_ticc import cluster_metrics
-    m = make_model(labels, thetas, Ss, K)
+    m = make_model(labels, thetas, Ss, K, eps)
     got = float(cluster_metrics.bayesian_information_criterion(m))
     want, scale = refs.bic(labels, thetas, Ss)
     if not np.isfinite(got):
@@ -99,9 +99,12 @@ def work_threshold(task):
             acc.n += 1
             acc.nontrivial += 1
             thetas = [ths[i], ths[(i * 5 + 3) % len(ths)]]
-            msg = judge(labels, thetas, Ss[:2], 2)
-            if msg:
-                acc.fail({"kind": "threshold", "i": i, "labels": list(labels)}, msg)
+            # the definition does not mention the covariance floor the run was configured with
+            for eps in (0, 1e-9, 1e-3):
+                msg = judge(labels, thetas, Ss[:2], 2, eps)
+                if msg:
+                    acc.fail({"kind": "threshold", "i": i, "labels": list(labels), "eps": eps},
+                             (f"with min_meaningful_covariance={eps} in the arguments: " if eps else "") + msg)
     acc.sample({"kind": "threshold", "theta": ths[lo].tolist()})
     return acc.result()
 
